@@ -6,7 +6,7 @@ from .c13 import parse_dump
 
 class C14(CacheProp):
     pid = "C14"
-    profiles = ["ttl", "ttl", "ttl", "basic", "tinybuf", "collide", "ttl"]
+    profiles = ["ttl", "ttl", "shouldttl", "basic", "tinybuf", "collide", "ttl", "shouldttl"]
     rule = ("virtual-time histories with TTL writes placed before a sweep, between the sweep's bucket grab and its per-key "
             "check (re-entrant rewrite from OnEvict: op sweeprw), and after the bucket was swept (insert held at the gate "
             "past its expiry), re-writes with longer/shorter/no TTL and deletes; oracle: a sweep reports only values whose "
@@ -72,6 +72,16 @@ class C14(CacheProp):
                         evicted_by_sweep[v] = evicted_by_sweep.get(v, 0) + 1
                         if evicted_by_sweep[v] > 1:
                             fails.append("op %d: value %d reported twice by expiry processing" % (st["n"], v))
+            if op[0] == "dump":
+                # every stored entry that carries an expiration is filed in some bucket of the expiry index (else no sweep
+                # will ever reach it)
+                d0 = parse_dump(st["raw"])
+                filed = {x.split(":")[1] for x in d0.get("buckets", [])}
+                for x in d0.get("store", []):
+                    k, _, v, exp = x.split(":")
+                    if int(exp) != 0 and k not in filed:
+                        fails.append("op %d: value %s (key %s) carries an expiration but is filed in no bucket of the expiry "
+                                     "index: it will never be reclaimed" % (st["n"], v, k))
             if op[0] == "dump" and st["n"] > 0 and tr.steps[st["n"] - 1]["op"][0] in ("sweep", "sweeprw"):
                 d = parse_dump(st["raw"])
                 cur_cleanup = (now // 10 ** 9) // bdur          # cleanupBucket(now) = storageBucket(now) - 1
